@@ -593,4 +593,18 @@ PROPS['C12']['proved_part'] += ('; CHARACTER level for csv: lemma.csv.chars.roun
                                 'are defined in Lean over List Char and proved inverse for ALL rows of fields up to the field size limit (lemmas/TextCsv.lean: csv_roundtrip, csv_limit); '
                                 'under REP (one row of cells per object, labels within csv.field_size_limit(), at least one object for auto-detection) Csv.loads(Csv.dumps(...)) is the given triple')
 PROPS['C12']['bounded_part'] = PROPS['C12']['bounded_part'].replace('the characters of the other text formats (csv quoting, wiki-table, ', 'that the C implementation of the csv module computes the Lean reader/writer definitions in the excel dialect (validated: 590k comparisons); the characters of the other text formats (wiki-table, ')
+# C12: level texts after the character-level work (11.13, 11.16, 11.18)
+PROPS['C12'].update({
+    'technique': ('contract-based deductive verification of the real loaders / dumpers (VCs from their ASTs over a TEXT theory, z3) composed with text lemmas proved in Lean over List Char '
+                  '(strip / split / join / decimal / padding / the csv reader state machine); bounded stand-in (independent reference readers / writers) for files, codecs, python-literal texts '
+                  'and the wiki-table output'),
+    'level_text': ('String round trips of the cxt, table and csv formats and of the FIMI index rows are proved at CHARACTER level for every representable context (the exact '
+                   'representability preconditions are part of the units and confirmed by replay), relative to the stated identification of CPython\'s str methods, print / io.StringIO and '
+                   'the csv module with the List Char definitions of lemmas/Text.lean and lemmas/TextCsv.lean (validated by millions of comparisons, never counted as proved); layout at line '
+                   'level, python-literal at structure level, format lookup / suffix inference and the plumbing are proved with texts opaque. Files with encodings, repr / ast.literal_eval, '
+                   'the wiki-table reference reader and other csv dialects are bounded -- hence `other`, not `proof`.'),
+    'level_note': ('Assumed: CPython str / csv / io functions compute the Lean definitions (selftest: CPython vs. a python copy of the definitions and vs. the Lean definitions themselves); '
+                   'the hand transcription SMT <-> Lean of the lemma statements (lemmas/README.md). Not modelled: codecs, os.linesep on real files, repr / ast.literal_eval, '
+                   'texts written by other programs, csv dialect arguments.'),
+})
 NOT_APPLICABLE = {}
